@@ -83,6 +83,23 @@ def run(ctx):
             ctx.count('repeated-food')
         if rep or any(q.value < 0 for _, ents, _ in log for _, q in ents):
             ctx.mark_nontrivial(sig(c.files))
+    # one file in both roles (a journal that is its own recipe book: headings are dates, a food may be named like a date):
+    # the program must read it twice; the report is the one it gives for a copy of the file under a second name
+    from .. import core
+    binary = ctx.real()
+    journal = b'2021/01/24:\n  bread: 1\n  cheese: 0.5\n2021/01/25:\n  2021/01/24: 2\n  milk: 1\n'
+    n = 0
+    for argv in (['reg'], ['bal'], ['report', 'totals'], ['report', 'unresolved'], ['summary', '2021/01/25'], ['reg', '-s', 'bread'], ['csv', 'log']):
+        base = ['--today', '2021/01/28', '--no-color']
+        rc1, out1, err1 = core.run_real_binary(binary, base + ['-d', 'j.yaml', '-l', 'j.yaml'] + argv, {b'j.yaml': journal})
+        rc2, out2, err2 = core.run_real_binary(binary, base + ['-d', 'copy.yaml', '-l', 'j.yaml'] + argv, {b'j.yaml': journal, b'copy.yaml': journal})
+        n += 2
+        if (rc1, out1) != (rc2, out2) or rc1 != 0:
+            ctx.problem('oracle', '`%s` with one file as recipe book and as log does not give the report it gives for a copy of that file under a second name' % ' '.join(argv), None,
+                        {'same_file': out1.decode('utf-8', 'replace')[:500] + ' [%d] %s' % (rc1, err1.decode('utf-8', 'replace')[:200]), 'copy': out2.decode('utf-8', 'replace')[:500] + ' [%d]' % rc2},
+                        signature='same-file-both-roles')
+    ctx.evaluations += n
+    ctx.notes.append('%d runs of the untagged binary with one file as book and as log' % n)
     ctx.sample({'cmd': cases[0].shell(), 'log': cases[0].files[b'log.yaml'].decode('utf-8', 'replace')[:500], 'book': cases[0].files[b'food.yaml'].decode('utf-8', 'replace')[:400]})
 
 
